@@ -149,6 +149,18 @@ def clause_e(ctx, P):
         tr = tracer(P, cf)
         rets = [tr.local(0, endpos(cf, rb)) for rb in cf.exits()]
         okr = all(r[0] == "unop" and r[1] == "Not" and has_call(r, "DnsRecord::is_expired") for r in rets)
+        if not okr:
+            # the same predicate written with early returns: on every path the constant returned is the negation of the
+            # is_expired() outcome the path took
+            from .f9 import closure_paths
+            e_t = guard_edges(P, cf, lambda atom, outcome, bb: atom[0] == "call" and strip_generics(atom[1]).endswith("DnsRecord::is_expired") and outcome is True)
+            e_f = guard_edges(P, cf, lambda atom, outcome, bb: atom[0] == "call" and strip_generics(atom[1]).endswith("DnsRecord::is_expired") and outcome is False)
+            paths = closure_paths(P, cf)
+            okr = bool(paths) and bool(e_t) and bool(e_f)
+            for (edges, val) in (paths or []):
+                took_t, took_f = bool(edges & e_t), bool(edges & e_f)
+                if not (isinstance(val, bool) and (took_t != took_f) and val is took_f):
+                    okr = False
         ctx.ob("C17e.retain-not-expired", cf.name, okr, cf.loc(), "retain keeps exactly the records that are not expired: " + "; ".join(show(r)[:60] for r in rets))
     ctx.require(found, "C17e.anchor", g.name, g.loc(), "eviction closure found")
 
